@@ -38,3 +38,25 @@ func VerifSources(q Query) []Query {
 	}
 	return nil
 }
+
+// VerifWholeRowBelow reports whether some summarize node that uses the
+// "whole row" special case (overall min/max of a key also returns the record)
+// lies below another operator (a Sort at the root does not count).
+// Used only to classify failures.
+func VerifWholeRowBelow(q Query) bool {
+	if s, ok := q.(*Sort); ok {
+		q = s.source
+	}
+	found := false
+	var walk func(q Query, root bool)
+	walk = func(q Query, root bool) {
+		if su, ok := q.(*Summarize); ok && su.wholeRow && !root {
+			found = true
+		}
+		for _, c := range VerifSources(q) {
+			walk(c, false)
+		}
+	}
+	walk(q, true)
+	return found
+}
